@@ -513,6 +513,210 @@ func stateAndCalls(fd *ast.FuncDecl, vars map[string]bool) (globals, calls []str
 	return
 }
 
+func rootIdent(e ast.Expr) *ast.Ident {
+	for {
+		switch x := e.(type) {
+		case *ast.Ident:
+			return x
+		case *ast.SelectorExpr:
+			e = x.X
+		case *ast.IndexExpr:
+			e = x.X
+		case *ast.StarExpr:
+			e = x.X
+		case *ast.ParenExpr:
+			e = x.X
+		default:
+			return nil
+		}
+	}
+}
+
+func funcLabel(fd *ast.FuncDecl) string {
+	if fd.Recv != nil && len(fd.Recv.List) == 1 {
+		t := fd.Recv.List[0].Type
+		if st, ok := t.(*ast.StarExpr); ok {
+			t = st.X
+		}
+		if id, ok := t.(*ast.Ident); ok {
+			return id.Name + "." + fd.Name.Name
+		}
+	}
+	return fd.Name.Name
+}
+
+func localNames(fd *ast.FuncDecl) map[string]bool {
+	local := map[string]bool{}
+	addFields := func(fl *ast.FieldList) {
+		if fl == nil {
+			return
+		}
+		for _, f := range fl.List {
+			for _, n := range f.Names {
+				local[n.Name] = true
+			}
+		}
+	}
+	addFields(fd.Recv)
+	addFields(fd.Type.Params)
+	addFields(fd.Type.Results)
+	ast.Inspect(fd.Body, func(n ast.Node) bool {
+		switch x := n.(type) {
+		case *ast.AssignStmt:
+			if x.Tok == token.DEFINE {
+				for _, l := range x.Lhs {
+					if id, ok := l.(*ast.Ident); ok {
+						local[id.Name] = true
+					}
+				}
+			}
+		case *ast.ValueSpec:
+			for _, nm := range x.Names {
+				local[nm.Name] = true
+			}
+		case *ast.RangeStmt:
+			if x.Tok == token.DEFINE {
+				for _, e := range []ast.Expr{x.Key, x.Value} {
+					if id, ok := e.(*ast.Ident); ok {
+						local[id.Name] = true
+					}
+				}
+			}
+		}
+		return true
+	})
+	return local
+}
+
+// packageState: every place inside a function body of the package where a package-level variable
+// can be written or handed out for writing: assignment / inc-dec with such a variable at the root of
+// the left-hand side, `&v` of it, and method calls with it as the receiver (a pointer-receiver method
+// may write it; go/ast cannot tell, so all are listed and the list is pinned). Shared mutable
+// state on the pairing path (scratch buffers, caches, counters) shows up here.
+func packageState(pkgdir string) []string {
+	vars := packageVars(pkgdir)
+	set := map[string]bool{}
+	ents, _ := os.ReadDir(pkgdir)
+	for _, e := range ents {
+		n := e.Name()
+		if e.IsDir() || !strings.HasSuffix(n, ".go") || strings.HasSuffix(n, "_test.go") {
+			continue
+		}
+		f := parse(pkgdir + n)
+		for _, d := range f.Decls {
+			fd, ok := d.(*ast.FuncDecl)
+			if !ok || fd.Body == nil {
+				continue
+			}
+			local := localNames(fd)
+			isVar := func(e ast.Expr) (string, bool) {
+				id := rootIdent(e)
+				if id != nil && vars[id.Name] && !local[id.Name] {
+					return id.Name, true
+				}
+				return "", false
+			}
+			lab := funcLabel(fd)
+			ast.Inspect(fd.Body, func(nd ast.Node) bool {
+				switch x := nd.(type) {
+				case *ast.AssignStmt:
+					if x.Tok != token.DEFINE {
+						for _, l := range x.Lhs {
+							if v, ok := isVar(l); ok {
+								set[lab+": assign "+v] = true
+							}
+						}
+					}
+				case *ast.IncDecStmt:
+					if v, ok := isVar(x.X); ok {
+						set[lab+": incdec "+v] = true
+					}
+				case *ast.UnaryExpr:
+					if x.Op == token.AND {
+						if v, ok := isVar(x.X); ok {
+							set[lab+": addr &"+v] = true
+						}
+					}
+				case *ast.CallExpr:
+					if sel, ok := x.Fun.(*ast.SelectorExpr); ok {
+						if v, ok := isVar(sel.X); ok {
+							set[lab+": call "+v+"."+sel.Sel.Name] = true
+						}
+					}
+				}
+				return true
+			})
+		}
+	}
+	var out []string
+	for k := range set {
+		out = append(out, k)
+	}
+	sort.Strings(out)
+	return out
+}
+
+// valueFieldUses: in the groupsig wrappers, every method invoked on — and every address taken of —
+// the `.value` field (a bn256.G1/G2 holding a POINTER) of a receiver or parameter. A struct copy of
+// Signature / Pubkey shares that pointer, so a mutating method here changes the caller's object.
+func valueFieldUses(files ...*ast.File) []string {
+	set := map[string]bool{}
+	for _, f := range files {
+		for _, d := range f.Decls {
+			fd, ok := d.(*ast.FuncDecl)
+			if !ok || fd.Body == nil {
+				continue
+			}
+			params := map[string]bool{}
+			for _, fl := range []*ast.FieldList{fd.Recv, fd.Type.Params} {
+				if fl == nil {
+					continue
+				}
+				for _, fld := range fl.List {
+					for _, n := range fld.Names {
+						params[n.Name] = true
+					}
+				}
+			}
+			isVal := func(e ast.Expr) (string, bool) {
+				sel, ok := e.(*ast.SelectorExpr)
+				if !ok || sel.Sel.Name != "value" {
+					return "", false
+				}
+				id, ok := sel.X.(*ast.Ident)
+				if !ok || !params[id.Name] {
+					return "", false
+				}
+				return "arg.value", true
+			}
+			lab := funcLabel(fd)
+			ast.Inspect(fd.Body, func(nd ast.Node) bool {
+				switch x := nd.(type) {
+				case *ast.CallExpr:
+					if sel, ok := x.Fun.(*ast.SelectorExpr); ok {
+						if v, ok := isVal(sel.X); ok {
+							set[lab+": "+v+"."+sel.Sel.Name+"()"] = true
+						}
+					}
+				case *ast.UnaryExpr:
+					if x.Op == token.AND {
+						if v, ok := isVal(x.X); ok {
+							set[lab+": &"+v] = true
+						}
+					}
+				}
+				return true
+			})
+		}
+	}
+	var out []string
+	for k := range set {
+		out = append(out, k)
+	}
+	sort.Strings(out)
+	return out
+}
+
 func leanStr(s string) string {
 	s = strings.ReplaceAll(s, "\\", "\\\\")
 	s = strings.ReplaceAll(s, "\"", "\\\"")
@@ -621,6 +825,8 @@ func main() {
 	s.WriteString(leanList("hashToPointCalls", "bn256.go: callees of G1.HashToPoint", c2))
 	s.WriteString(leanList("hashToCurvePointState", "bn256.go: package-level variables hashToCurvePoint touches (only the modulus)", g3))
 	s.WriteString(leanList("hashToCurvePointCalls", "bn256.go: callees of hashToCurvePoint", c3))
+	s.WriteString(leanList("bn256PackageState", "bn256/*.go: every write-capable use of a package-level variable inside a function body (assign / incdec / &v / method call with v as receiver)", packageState(dir+"bn256/")))
+	s.WriteString(leanList("groupsigValueUses", "sig.go, pubkey.go: methods invoked on / addresses taken of the shared-pointer field `.value` of a receiver or parameter", valueFieldUses(sigf, pkf)))
 	s.WriteString("end Rangers.Generated.Bls14.Shape\n")
 
 	fmt.Println("-----FILE Bls14Consts.lean")
